@@ -154,6 +154,8 @@ rf_wavheader_format_t rf_wavheader_get_format(rf_wavheader_t *wh)
 void rf_wavheader_init(rf_wavheader_t *wh, int sfreq, int num_channels,
 		rf_wavheader_format_t format)
 {
+	memset(wh, 0, sizeof(*wh));
+
 	memcpy(wh->chunk_id, riff, 4);
 	wh->chunk_size = 12 + 18 + 12 + 8; // chunks: riff, fmt, fact, data
 	memcpy(wh->format, wave, 4);
